@@ -337,7 +337,39 @@ def check_bypass(fx, R, cname, f, tag):
                        'entries of `%s`, so a list of that length that pairs the points differently (a permutation, which the property names: every correspondence order / pairing) is ignored and '
                        'the motion of the identity pairing is returned [%s]' % (ctext, lname, cname), fx.rel(node['loc']), 'E-STATE')
         else:
-            R.undecided('V10', inst + ' [%s]' % cname, 'returns before the accumulation loops when `%s`; whether that path is equivalent for every correspondence list is not decided' % ctext)
+            # a return of a value that does not depend on the points, under a condition on the number of points / pairs: decided by evaluating the
+            # condition for the counts of the quantifier (3..500)
+            const_ret = rets and all(not any(isinstance(z, dict) and z.get('k') == 'Ref' and z.get('rk') in ('param', 'local') for z in walk(y['e'])) for y in rets)
+            hit = None
+            if const_ret:
+                from .. import mini
+                D_ = cdim(f, fx)
+                for n_ in (3, 4, 5, 6, 10, 500):
+                    env = {('.size', p['name']): n_ for p in f['params']}
+                    env.update({'CARTESIAN_DIM': D_, 'this.CARTESIAN_DIM': D_})
+                    try:
+                        def rep(t):
+                            t = deep_unwrap(t)
+                            def go(x):
+                                if isinstance(x, tuple) and len(x) == 2 and x[0] == '.size' and isinstance(x[1], str):
+                                    return 'size:' + x[1]
+                                if isinstance(x, tuple):
+                                    return tuple(go(y_) for y_ in x)
+                                return x
+                            return go(t)
+                        env2 = {'size:' + p['name']: n_ for p in f['params']}
+                        env2.update({'CARTESIAN_DIM': D_, 'this.CARTESIAN_DIM': D_, 'POINT_SIZE': D_})
+                        if mini.Step(rep).ev(rep(sx(node['c'])), env2):
+                            hit = hit or n_
+                    except mini.Unsupported:
+                        hit = None
+                        break
+            if const_ret and hit is not None:
+                R.violated('V10', inst + ':constant', 'when `%s` - true for %d points in %d-D, inside the quantifier (3..500 points, coplanar sets included) - the estimator returns %s, a value that does not depend '
+                           'on the points: the rigid motion of %d non-collinear points is determined, and it is not recovered [%s]' % (ctext, hit, cdim(f, fx), pp(rets[0]['e'])[:60], hit, cname),
+                           fx.rel(node['loc']), 'E-STEP')
+            else:
+                R.undecided('V10', inst + ' [%s]' % cname, 'returns before the accumulation loops when `%s`; whether that path is equivalent for every correspondence list is not decided' % ctext)
     return True
 
 
